@@ -12,7 +12,7 @@ RULE = ("subnet sets (<= 12 per map: seeds with nested / adjacent / same-network
         "derived parents / last children / siblings / following blocks) x clients from the critical set (network "
         "address, last, last+1, first-1, ::, ::ffff:0:0, ::1:0:0:0, all-ones, interior points) x prefix lengths "
         "{0, len-1, len, len+1, max}; kind rr = Rearranger output read by predecessor search, kind db = real CDB "
-        "(combined and per-family prefix sets), RocksDB v1 and v2 databases compiled from M/8/% lines, "
+        "(combined and per-family prefix sets), RocksDB v1 and v2 databases compiled from M/8/% lines, and (bk pv1 / pv2: the fixed multi-map files and one generated file in the quick tier, every file in the thorough tier) RocksDB v1 and v2 databases compiled from the PREPROCESSED text (Codec.Preprocess with the settings of cmd/dnsrocks-preproc: SubnetRanger.OpenScanner emits the per-map range-point lines), "
         "ResolverLocation / EcsLocation (ECS from wire bytes, masked and with host bits, family 2 with v4-mapped "
         "address, family 0); one case per (input, client, backend). non-trivial = distinct (subnet set, maps, "
         "client, backend) whose spec answer is a location or whose client lies on a block boundary")
@@ -29,7 +29,7 @@ ASSUMPTIONS = [
     "map declarations: labels of at least one byte, each (kind, name, wildcard) declared with one map id; kinds 77 (M) and 56 (8)",
 ]
 
-BK = {"rr": "KRr", "cdb": "KCdb", "cdbsep": "KCdbSep", "v1": "KV1", "v2": "KV2"}
+BK = {"rr": "KRr", "cdb": "KCdb", "cdbsep": "KCdbSep", "v1": "KV1", "v2": "KV2", "pv1": "KPV1", "pv2": "KPV2"}
 
 
 def _int16(b):
@@ -130,7 +130,7 @@ def known_finding(c, findings):
     """F20: only RocksDB / Rearranger cases in which EVERY query selects a map whose subnet set contains an IPv6
     subnet other than ::/0 that overlaps ::ffff:0:0/96 (::/N for 1 <= N <= 80, prefixes of ::ffff:0:0 of length 81..95), and no query ended in a panic or in an error other than the duplicate-range-point one.  The CDB backends must still satisfy
     the spec on such sets."""
-    if c["bk"] not in ("rr", "v1", "v2") or not c["qs"]:
+    if c["bk"] not in ("rr", "v1", "v2", "pv1", "pv2") or not c["qs"]:
         return None
     for x in c["qs"]:
         if x["o"]["st"] == "panic":
